@@ -165,5 +165,13 @@ def fr(x):
 
 
 def fstr(x):
+    """JSON form of a rational: int, "n/d" string, or - for very small / large dyadics - the exact double."""
     x = Fraction(x)
-    return int(x) if x.denominator == 1 else str(x)
+    if x.denominator == 1 and x.numerator.bit_length() <= 62:
+        return int(x)
+    if x.denominator.bit_length() > 62 or x.numerator.bit_length() > 62:
+        f = float(x)
+        if Fraction(f) != x:
+            raise ValueError("not exactly representable: %r" % (x,))
+        return f
+    return str(x)
